@@ -169,6 +169,47 @@ class CounterModel(dict):
                 self[k] = self[k] + 1
 
 
+class DequeModel(list):
+    """Model of collections.deque (unbounded): a list with the operations at the left end."""
+
+    def popleft(self):
+        return self.pop(0)
+
+    def appendleft(self, x):
+        self.insert(0, x)
+
+    def extendleft(self, xs):
+        for x in xs:
+            self.insert(0, x)
+
+    def rotate(self, n=1):
+        if self:
+            n %= len(self)
+            self[:] = self[-n:] + self[:-n]
+
+
+class DefaultDictModel(dict):
+    """Model of collections.defaultdict with a builtin factory (list, dict, set, int, float, str)."""
+
+    def __init__(self, factory, *a):
+        super().__init__(*a)
+        self.factory = factory
+
+    def __missing__(self, key):
+        if self.factory is None:
+            raise KeyError(key)
+        self[key] = self.factory()
+        return self[key]
+
+    def __deepcopy__(self, memo):
+        import copy as _c
+        new = DefaultDictModel(self.factory)
+        memo[id(self)] = new
+        for k, v in self.items():
+            new[_c.deepcopy(k, memo)] = _c.deepcopy(v, memo)
+        return new
+
+
 class ObjRunner:
     def __init__(self, prog, rel, extra_hook=None, depth_limit=30, fork=False):
         self.fork = fork      # undetermined `if` tests (symbolic values) are explored both ways: see explore()
@@ -608,6 +649,11 @@ class ObjRunner:
                     return recv["__m__"].group(*args)
                 if attr == "groups":
                     return list(recv["__m__"].groups())
+            if isinstance(recv, DequeModel) and attr in ("popleft", "appendleft", "extendleft", "rotate", "clear") and not any(isinstance(a, Unknown) for a in args):
+                try:
+                    return getattr(recv, attr)(*args)
+                except IndexError:
+                    raise Flow("raise", "IndexError('pop from an empty deque')", call) from None
             if isinstance(recv, list) and attr in ("index", "count", "copy", "sort", "reverse") and not any(isinstance(a, Unknown) for a in args):
                 try:
                     return getattr(recv, attr)(*args, **kw)
@@ -714,6 +760,12 @@ class ObjRunner:
             if args:
                 c_.update(args[0])
             return c_
+        if name in ("deque", "collections.deque") and name not in interp.env and len(args) <= 1 and not kw and not any(isinstance(a, Unknown) for a in args):
+            return DequeModel(*args)
+        if name in ("defaultdict", "collections.defaultdict") and name not in interp.env and len(args) <= 2 and not kw and (
+                not args or (isinstance(call.args[0], ast.Name) and call.args[0].id in ("list", "dict", "set", "int", "float", "str")) or args[0] is None):
+            fac = {"list": list, "dict": dict, "set": set, "int": int, "float": float, "str": str}.get(call.args[0].id) if args and args[0] is not None else None
+            return DefaultDictModel(fac, *args[1:])
         if name in ("set", "frozenset", "dict") and name not in interp.env and len(args) <= 1 and not kw:
             return {"set": set, "frozenset": frozenset, "dict": dict}[name](*args)
         if isinstance(call.func, ast.Name) and self.cinfo(name) is not None:
